@@ -5,6 +5,7 @@ compares, step by step, the result's pointer-annotated unfolding (addresses renu
 first appearance), the table size, and the re-inspected older handles.
 -/
 import Rsbdd.Driver.BddCases
+import Rsbdd.Driver.FormulaCases
 import Rsbdd.Model.Env
 
 namespace Rsbdd
@@ -166,6 +167,29 @@ def runHistory (steps : List String) : Verdict := Id.run do
 def handleC13 (fields : List String) : Verdict :=
   match fields with
   | ["hist", body] => runHistory ((body.splitOn ";").filter (fun s => !s.trimAscii.toString.isEmpty))
+  | ["defs", main, defsS, result, fresh] =>
+    -- a formula with `{references}` evaluated in a long-lived ParsedFormula whose definitions change:
+    -- `result` is what that evaluation returned, `fresh` what a new ParsedFormula with the same
+    -- definitions returns
+    let defsL := (defsS.splitOn ",").filter (fun s => !s.isEmpty)
+    let defs? : Option (List (String × Formula)) := defsL.mapM (fun d => match d.splitOn "=" with
+      | [n, a] => (parseFormula a).map (fun f => (n, f))
+      | _ => none)
+    match parseFormula main, defs? with
+    | some mf, some defs =>
+      let inl := Formula.inlineRefs defs 64 mf
+      let m := Formula.evalF modelIters (modelFuel inl) inl
+      if result == "PANIC" then
+        { modelOk := false, modelOut := showOpt m, oracle := some "evaluation panicked in an environment that had evaluated before" }
+      else if fresh == "PANIC" then Verdict.badLine "the fresh evaluation panicked"
+      else match parseBDD result, parseBDD fresh with
+      | some r, some fr =>
+        let modelOk := match m with | some m => sameFun m r | none => false
+        let o1 := if r == fr then none
+          else some s!"the outcome differs from the outcome in a fresh environment with the same definitions: {showBDD r} vs {showBDD fr}"
+        { modelOk, modelOut := showOpt m, oracle := orElse o1 (semOracle inl r), nontrivial := r.isChoice }
+      | _, _ => Verdict.badLine "unreadable result"
+    | _, _ => Verdict.badLine "unreadable defs line"
   | _ => Verdict.badLine "unknown C13 line"
 
 end Driver
